@@ -101,7 +101,8 @@ def _mk(fams, codes, env_excl=(), props=None, gen=("GenGuards.v", "GenConfig.v")
 SIM = {
     "C01": _mk(["G1", "G2", "G3", "G4", "G7", "G8", "G9"], range(101, 110)),
     "C02": _mk(["G1", "G6", "G7", "G5"], [201, 202], NOFAULT | {ENV_TAKEOVER}),
-    "C03": _mk(["G2", "G3", "G8", "G9"], range(301, 305)),
+    # 9013: a health checker that blocks beyond its deadline delays the refresh tick by as much; the bound of C03 is not claimed then
+    "C03": _mk(["G2", "G3", "G8", "G9"], range(301, 305), {9013}),
     "C04": _mk(["G3", "G9", "G2", "G4"], range(401, 406)),
     "C06": _mk(["G8", "G1"], [601]),
     "C11": _mk(["G5", "G7"], range(1101, 1108)),
